@@ -284,7 +284,7 @@ def _parse_numline(blt_line: str,
     # Split the line by spaces to obtain numbers.
     nums = []
     for i, numstr in enumerate(blt_line.split()):
-        if numstr.isdigit():
+        if numstr.isdecimal():
             nums.append(int(numstr))
         elif i == 0 and allow_first_decimal:
             nums.append(_parse_weight(numstr))
